@@ -112,26 +112,35 @@ fn lists_empty(p: &NtpPacket<'_>) -> bool {
     ph::packet_authenticated(p).is_empty() && ph::packet_encrypted(p).is_empty() && p.new_cookies().count() == 0
 }
 
-/// Tamper one byte in [lo, hi) and compare with the untampered decode.
+/// What the untampered packet authenticates / encrypts, by construction (not taken from the
+/// decoder): request = [unique id, cookie] / []; response = [unique id] / [new cookie].
+struct Expected<'a> {
+    uid: &'a [u8; UID],
+    /// request: the cookie is an authenticated field; response: it is the encrypted field
+    cookie: &'a [u8; COOKIE],
+    is_request: bool,
+}
+impl Expected<'_> {
+    fn matches(&self, p: &NtpPacket<'_>) -> bool {
+        let auth = ph::packet_authenticated(p);
+        let enc = ph::packet_encrypted(p);
+        let uid_ok = |f: &Ef<'_>| matches!(f, Ef::UniqueIdentifier(u) if u[..] == self.uid[..]);
+        let cookie_ok = |f: &Ef<'_>| matches!(f, Ef::NtsCookie(k) if k[..] == self.cookie[..]);
+        if self.is_request {
+            auth.len() == 2 && uid_ok(&auth[0]) && cookie_ok(&auth[1]) && enc.is_empty()
+        } else {
+            auth.len() == 1 && uid_ok(&auth[0]) && enc.len() == 1 && cookie_ok(&enc[0])
+        }
+    }
+}
+
+/// Tamper one byte in [lo, hi), decode, and judge the result by region.
 /// Returns 0 = rejected, 1 = decrypt error, 2 = accepted (for the per-region cover goals).
-fn tamper(orig: &[u8; B], l: Layout, key: u8, lo: usize, hi: usize, n_auth: usize, n_enc: usize) -> u8 {
+fn tamper(orig: &[u8; B], l: Layout, key: u8, lo: usize, hi: usize, exp: &Expected<'_>) -> u8 {
     let pos: usize = kani::any();
     let mask: u8 = kani::any();
     kani::assume(pos >= lo && pos < hi && mask != 0);
     let cipher = ModelCipher::new(key);
-
-    // untampered: accepted, everything before the authenticator authenticated
-    let r0 = decode(&orig[..l.total], &cipher);
-    let p0 = match &r0 {
-        Outcome::Accepted(p, _) => p,
-        _ => {
-            assert!(false, "the untampered packet is accepted");
-            return 0;
-        }
-    };
-    assert!(ph::packet_authenticated(p0).len() == n_auth, "original: authenticated fields");
-    assert!(ph::packet_encrypted(p0).len() == n_enc, "original: encrypted fields");
-    assert!(ph::packet_untrusted(p0).is_empty(), "original: nothing unauthenticated");
 
     // `t[pos] ^= mask` written so that only bytes of the region [lo, hi) become position
     // dependent (a write through a symbolic index would make every byte of the image, including
@@ -156,21 +165,46 @@ fn tamper(orig: &[u8; B], l: Layout, key: u8, lo: usize, hi: usize, n_auth: usiz
             assert!(!*cookie, "client keys never yield a server cookie");
             if in_a {
                 assert!(lists_empty(p), "A: tampering inside the authenticated region is never authentic");
+            } else if in_c {
+                assert!(exp.matches(p), "C: authenticated/encrypted lists equal the original's");
+                assert!(ph::packet_untrusted(p).is_empty(), "C: nothing unauthenticated appears");
             } else {
-                let same = ph::packet_authenticated(p) == ph::packet_authenticated(p0)
-                    && ph::packet_encrypted(p) == ph::packet_encrypted(p0);
-                if in_c {
-                    assert!(same, "C: lists equal the original's");
-                } else {
-                    assert!(same || lists_empty(p), "B: no different content appears authentic");
-                }
+                assert!(exp.matches(p) || lists_empty(p), "B: no different content appears authentic");
             }
         }
     }
-    match r1 {
-        Outcome::Rejected => 0,
-        Outcome::DecryptFailed(_) => 1,
-        Outcome::Accepted(..) => 2,
+    let code = r1.code();
+    std::mem::forget(r1);
+    code
+}
+
+/// The untampered images are accepted with exactly the expected authenticated/encrypted content.
+pharness! {
+    #[kani::unwind(5)]
+    fn c25_untampered() {
+        symbolic_model_randomness();
+        let hdr: [u8; 48] = kani::any();
+        let uid: [u8; UID] = kani::any();
+        let cookie: [u8; COOKIE] = kani::any();
+        let trailer: [u8; 4] = kani::any();
+        let is_request: bool = kani::any();
+        let (img, l, key) = if is_request {
+            (assemble_request(&hdr, &uid, &cookie, trailer), REQ, 0)
+        } else {
+            (assemble_response(&hdr, &uid, &cookie, trailer), RESP, 1)
+        };
+        let exp = Expected { uid: &uid, cookie: &cookie, is_request };
+        let r = decode(&img[..l.total], &ModelCipher::new(key));
+        match &r {
+            Outcome::Accepted(p, c) => {
+                assert!(exp.matches(p), "exactly the fields before / inside the authenticator are authentic");
+                assert!(ph::packet_untrusted(p).is_empty() && !*c, "nothing else");
+            }
+            _ => assert!(false, "a valid NTS packet is accepted"),
+        }
+        kani::cover!(is_request, "request");
+        kani::cover!(!is_request, "response");
+        std::mem::forget(r);
     }
 }
 
@@ -181,7 +215,7 @@ fn request(lo: usize, hi: usize) -> u8 {
     let cookie: [u8; COOKIE] = kani::any();
     let trailer: [u8; 4] = kani::any();
     let orig = assemble_request(&hdr, &uid, &cookie, trailer);
-    tamper(&orig, REQ, 0, lo, hi, 2, 0)
+    tamper(&orig, REQ, 0, lo, hi, &Expected { uid: &uid, cookie: &cookie, is_request: true })
 }
 
 fn response(lo: usize, hi: usize) -> u8 {
@@ -191,7 +225,7 @@ fn response(lo: usize, hi: usize) -> u8 {
     let cookie: [u8; COOKIE] = kani::any();
     let trailer: [u8; 4] = kani::any();
     let orig = assemble_response(&hdr, &uid, &cookie, trailer);
-    tamper(&orig, RESP, 1, lo, hi, 1, 1)
+    tamper(&orig, RESP, 1, lo, hi, &Expected { uid: &uid, cookie: &cookie, is_request: false })
 }
 
 /// The public request constructor + the real `NtpPacket::serialize` produce exactly the image the
